@@ -10,6 +10,7 @@
  */
 #include <plibsys.h>
 #include <math.h>
+#include <pthread.h>
 #include "vh.h"
 
 #define ST_LIVE  0x11fe11fe
@@ -544,6 +545,16 @@ static void run_random(long long ops, int maxn, vh_rng *r) {
 	tree_free_checked();
 }
 
+/* progress watchdog: a damaged tree (a cycle among its links) makes lookup, insert or traversal loop for ever; the comparator and every
+ * operation bump counters, so "no operation finished for 20 s" is reported as a call that never returns, with the history that led to it */
+static void *tree_wd(void *a) {
+	long long last = -1; int idle = 0; (void)a;
+	for (;;) { long long p; sleep(1); p = __atomic_load_n(&st_ops, __ATOMIC_RELAXED) + __atomic_load_n(&st_full, __ATOMIC_RELAXED) + __atomic_load_n(&st_lookups, __ATOMIC_RELAXED) + __atomic_load_n(&st_hist, __ATOMIC_RELAXED);
+		if (p != last) { last = p; idle = 0; }
+		else if (++idle >= 20) { g_props |= 1; viol(12, "never-returns", "no tree operation finished for 20 s: a %s call on the tree does not return (links form a cycle?)", cur_op); fflush(stdout); _exit(0); } }
+	return NULL;
+}
+
 /* ---- "intkeys" mode (C12/C14): keys and values are small integers stored directly in the pointers, so the key 0 and one value per
  * tree are the NULL pointer - legal data that the notifiers must receive like any other.  Model: present[k] = value id.  After each call
  * the multiset of (notifier kind, pointer) events must equal the expectation exactly. */
@@ -617,6 +628,7 @@ int main(int argc, char **argv) {
 	if (!strcmp(mode, "random") && U < 2 * maxn) U = 2 * maxn;
 	vh_seed(&r, seed * 7919 + g_type * 131 + cfg);
 	p_libsys_init();
+	{ pthread_t wd; pthread_create(&wd, NULL, tree_wd, NULL); }
 	mkey = calloc(U, sizeof *mkey); mval = calloc(U, sizeof *mval);
 	sl = malloc(sizeof(int) * U); sr = malloc(sizeof(int) * U); sdepth = malloc(sizeof(int) * U);
 	stk = malloc(sizeof(int) * (U + 2)); hgt = malloc(sizeof(int) * U);
